@@ -238,6 +238,25 @@ def cigar_contract(seqs, trace, opts):
     return None
 
 
+def cigar_index_options(seqs, trace, opts):
+    """reference_index / segment_index: the CIGAR of rows (r, s) of any alignment is the CIGAR that the two-row
+    alignment of exactly these rows gives with the default indices (rows swapped; rows 2 and 0 of a 3-row alignment)"""
+    tr = np.array(trace, dtype=np.int64)
+    if not np.any((tr[:, 0] != -1) & (tr[:, 1] != -1)):
+        return None
+    base = align.write_alignment_to_cigar(align.Alignment(seqs, tr, None), **opts)
+    swapped = align.Alignment([seqs[1], seqs[0]], tr[:, ::-1].copy(), None)
+    got = align.write_alignment_to_cigar(swapped, reference_index=1, segment_index=0, **opts)
+    if got != base:
+        return f"rows swapped, reference_index=1, segment_index=0: {got!r}, default indices on the unswapped rows give {base!r} (options {opts})"
+    filler = seq.NucleotideSequence("A" * len(tr))
+    three = align.Alignment([seqs[1], filler, seqs[0]], np.stack([tr[:, 1], np.arange(len(tr)), tr[:, 0]], axis=1), None)
+    got3 = align.write_alignment_to_cigar(three, reference_index=2, segment_index=0, **opts)
+    if got3 != base:
+        return f"rows (2, 0) of a 3-row alignment: {got3!r}, the two-row alignment gives {base!r} (options {opts})"
+    return None
+
+
 WORDS = ["A", "C", "AC", "CA", "AA", "ACA", "CCA"]
 pairs = [(a, b) for a in WORDS for b in WORDS if len(a) <= 3 and len(b) <= 3]
 if not R.thorough:
@@ -261,6 +280,9 @@ for a, b in pairs:
                      {"introns": "auto", "distinguish_matches": True}):
             R.check("CIGAR write/read recovers the trace", f"cigar {sorted(opts)}", dict(desc, opts=opts),
                     lambda seqs=seqs, trace=trace, opts=opts: cigar_contract(seqs, trace, opts))
+            if "introns" not in opts:
+                R.check("CIGAR write/read recovers the trace", f"cigar index options {sorted(opts)}", dict(desc, opts=opts),
+                        lambda seqs=seqs, trace=trace, opts=opts: cigar_index_options(seqs, trace, opts))
 
 # local alignments: the trace covers only a window of each sequence (clipped bases at the segment ends)
 LOCAL = [("ACACA", "CAC"), ("CACAC", "ACA"), ("AACCA", "ACCAA")]
